@@ -463,8 +463,169 @@ pub mod startup {
     }
 }
 
+// ---------------------------------------------------------------------------------------
+// Part `first-use-vs-repair` (E3): the repair path is a first user too.  A node learns of keyspaces it has never
+// seen from a peer's poll reply at the very moment local clients use the same names for the first time.
+
+pub mod repair_race {
+    use std::collections::BTreeMap;
+    use std::time::Duration;
+
+    use datacake_node::Consistency;
+    use serde_json::{json, Value};
+
+    use crate::c01::ks_name;
+    use crate::core::{Outcome, Pass, Prop, Src};
+    use crate::e2::{actor_view, store_view};
+    use crate::e3::{self, Layout};
+    use crate::ensure;
+    use crate::registry::{DynPart, Gen};
+
+    #[derive(Debug, Clone)]
+    pub struct Case {
+        /// keyspaces (with one document each) that exist on the peer only
+        pub peer_keyspaces: usize,
+        /// local first uses on the fresh node: (ms after its poller tick, extra yields, keyspace, key)
+        pub writes: Vec<(u64, usize, usize, u64)>,
+        pub storage_latency_ms: u64,
+        pub seed: u64,
+    }
+
+    pub struct RepairRace;
+
+    impl Prop for RepairRace {
+        type Case = Case;
+
+        fn id(&self) -> &'static str {
+            "C18"
+        }
+
+        fn part(&self) -> &'static str {
+            "first-use-vs-repair"
+        }
+
+        fn width(&self) -> usize {
+            40
+        }
+
+        fn shrink_budget(&self) -> usize {
+            300
+        }
+
+        fn breadcrumbs(&self) -> bool {
+            true
+        }
+
+        fn gen(&self, src: &mut Src) -> Case {
+            let peer_keyspaces = 1 + src.below(6);
+            let writes = (0..1 + src.below(4)).map(|_| (*src.pick(&[0u64, 0, 0, 0, 1, 3]), src.below(12), src.below(peer_keyspaces + 1), 50 + src.below64(3))).collect();
+            Case { peer_keyspaces, writes, storage_latency_ms: *src.pick(&[0u64, 1, 3]), seed: src.word() }
+        }
+
+        fn run(&self, case: &Case) -> Outcome {
+            e3::sim(case.seed, 70_000_000, BTreeMap::new(), |net| run(case, net))
+        }
+
+        fn describe(&self, case: &Case) -> Value {
+            json!({
+                "keyspaces_only_the_peer_holds": case.peer_keyspaces,
+                "storage_latency_ms_of_the_fresh_node": case.storage_latency_ms,
+                "local_first_uses_(ms_after_the_poller_tick,clock_round_trips,keyspace,key)": case.writes,
+            })
+        }
+
+        fn rule(&self) -> &'static str {
+            "two real nodes; node 1 holds 1-6 keyspaces node 2 has never heard of (everything addressed to node 2 is \
+             dropped, it can only poll); at node 2's next poller tick -- when its repair path meets those names for the \
+             first time -- 1-4 local client writes use the same names (or one more fresh name) 0-3 ms and 0-11 clock round trips \
+             after the tick (as spawned tasks, in lock-step with the repair path), on storage that takes 0-3 ms per call; oracle: afterwards every entry node 2's storage holds \
+             is in the set a fresh lookup of the keyspace serialises (same or newer stamp) and the set equals storage; \
+             non-trivial = a local write used a keyspace name the peer also holds"
+        }
+    }
+
+    async fn run(case: &Case, net: e3::Net) -> Outcome {
+        let repair = Duration::from_secs(5);
+        let nodes_cfg = vec![(1u8, "dc-a".to_string()), (2u8, "dc-a".to_string())];
+        let mut latency = BTreeMap::new();
+        if case.storage_latency_ms > 0 {
+            latency.insert(2u8, case.storage_latency_ms);
+        }
+        let layout = Layout { nodes: nodes_cfg, repair_interval: repair, storage_latency_ms: latency };
+        let t_start = tokio::time::Instant::now();
+        let nodes = e3::start_cluster(&layout).await;
+        // node 2's extension exists 40 ms after the start: its poller ticks at +0.5 s and then every 5 s
+        crate::c01::POLLER_CLOCK.with(|c| c.set(Some((t_start + Duration::from_millis(40), repair))));
+        net.borrow_mut().dead.push(nodes[1].addr);
+        // let the first poller tick (at 0.5 s) pass while nothing exists yet
+        e3::advance(1_500).await;
+        for k in 0..case.peer_keyspaces {
+            let _ = nodes[0].handle.put(&ks_name(k), 1, vec![k as u8; 3], Consistency::None).await;
+        }
+        // to node 2's next tick
+        crate::c01::run_op(&nodes, &crate::c01::Op::ToPollerTick(0)).await;
+        let shared = case.writes.iter().any(|(_, _, ks, _)| *ks < case.peer_keyspaces);
+        // The writes run as spawned tasks: the future handed to `block_on` is polled only once per several dozen
+        // task polls, so anything awaited directly in it would always find the repair chain already finished.
+        let futs: Vec<_> = case
+            .writes
+            .iter()
+            .map(|(ms, yields, ks, key)| {
+                let h = nodes[1].handle.clone();
+                let clock = nodes[1].node.clock().clone();
+                let name = ks_name(*ks);
+                let (ms, yields, key) = (*ms, *yields, *key);
+                tokio::spawn(async move {
+                    // (a zero-length sleep still goes through the timer and would let the whole repair chain run first)
+                    if ms > 0 {
+                        tokio::time::sleep(Duration::from_millis(ms)).await;
+                    }
+                    // delay by whole request / reply exchanges with the node's clock actor: unlike `yield_now`
+                    // (which waits for the end of the scheduler tick, i.e. until the poller's whole chain of
+                    // channel wake-ups has run) this keeps the task in lock-step with the repair path
+                    for _ in 0..yields {
+                        let _ = clock.get_time().await;
+                    }
+                    let _ = h.put(&name, key, vec![7u8; 2], Consistency::None).await;
+                })
+            })
+            .collect();
+        futures::future::join_all(futs).await;
+        e3::advance(800).await;
+        crate::c01::POLLER_CLOCK.with(|c| c.set(None));
+
+        let fresh = &nodes[1];
+        let group = fresh.handle.verif_group().clone();
+        for name in fresh.store.keyspace_names() {
+            let set = actor_view(&group, &name).await;
+            let st = store_view(&fresh.store, &name);
+            for (key, t) in st.live.iter().chain(st.dead.iter()) {
+                let now = set.live.get(key).or_else(|| set.dead.get(key));
+                ensure!(
+                    matches!(now, Some(n) if n >= t),
+                    "accepted-operation-missing-from-set",
+                    "node 2, keyspace {name}: storage holds id {key} at {:?}, i.e. the node accepted that operation, but the set a fresh lookup returns holds {:?}",
+                    t,
+                    now
+                );
+            }
+            ensure!(set == st, "set-differs-from-storage", "node 2, keyspace {name}: the keyspace's set {:?} differs from storage {:?}", set, st);
+        }
+        let mut labels = vec![];
+        if shared {
+            labels.push("local_first_use_of_a_name_the_peer_holds");
+        }
+        Ok(Pass { nontrivial: shared, labels })
+    }
+
+    pub fn parts() -> Vec<Box<dyn DynPart>> {
+        vec![Box::new(Gen::new(RepairRace, 40_000, 2_000_000))]
+    }
+}
+
 pub fn parts_all() -> Vec<Box<dyn DynPart>> {
     let mut p = parts();
     p.extend(startup::parts());
+    p.extend(repair_race::parts());
     p
 }
